@@ -122,3 +122,26 @@ func TestTinyEnumeration(t *testing.T) {
 		t.Fatal("sizes")
 	}
 }
+
+func TestBigIsLALR(t *testing.T) {
+	r := rand.New(rand.NewSource(3))
+	for i := 0; i < 30; i++ {
+		g := Big(r)
+		if !Usable(g) {
+			t.Fatal("unusable")
+		}
+		rg := g.ToRef()
+		lr0 := ref.BuildLR0(rg, 2000)
+		la := ref.BuildLALR(lr0, 20000)
+		if la == nil {
+			t.Fatalf("LR1 limit, %d LR0 states", len(lr0.States))
+		}
+		tab := ref.BuildTable(la)
+		if len(tab.Cells) != 0 {
+			t.Fatalf("grammar %d has %d conflict cells", i, len(tab.Cells))
+		}
+		if i == 0 {
+			t.Logf("tokens %d nts %d rules %d lr0 %d lr1 %d", len(g.Tokens), len(g.NTs), len(g.Rules), len(lr0.States), la.LR1States)
+		}
+	}
+}
